@@ -57,9 +57,11 @@ NoCS           == [ts |-> 0 - 1, root |-> [k |-> "none", v |-> "", ts |-> 0], nv
 (* PlanRoot(v, ts)) holds, for EVERY plan height, the upgraded client of   *)
 (* variant v and the upgraded consensus state [ts, nv = "V"].              *)
 (***************************************************************************)
-PlanVariants == {"up", "lt", "gt", "low", "same"}
+PlanVariants == {"up", "lt", "gt", "low", "same", "sh"}
 PlanNL(v)  == CASE v = "low" -> <<0, 1>> [] v = "same" -> <<0, 4>> [] OTHER -> <<1, 1>>
-PlanUbd(v) == CASE v = "lt" -> UBD0 \div 2 [] v = "gt" -> 2 * UBD0 [] OTHER -> UBD0
+\* "sh": the unbonding period shrinks but stays above a standard trusting period (UBD0 / 2): the trusting period must
+\* be scaled although it would still fit
+PlanUbd(v) == CASE v = "lt" -> UBD0 \div 2 [] v = "gt" -> 2 * UBD0 [] v = "sh" -> (3 * UBD0) \div 4 [] OTHER -> UBD0
 
 (***************************************************************************)
 (* State                                                                   *)
